@@ -475,3 +475,71 @@ def filter_obligations(w):
                             'per-kind dispatch rules cannot see them being dropped (a token, comment or space can disappear here); not one of the confirmed filters'
                             % (b.short, ad), b.loc(t['span'])))
     return out
+
+
+# ---------------------------------------------------------------------------------------------------------------------
+# an Args node has two parts: the parenthesised list and the trailing content blocks.  The filters above drop the second part from the loops that
+# print the first one on the ground that `convert_additional_args` prints it; that ground is an obligation of every caller (found F21: the set rule
+# called the parenthesised-part converter alone, `#set text(red)[hello]` lost `[hello]`).
+# ---------------------------------------------------------------------------------------------------------------------
+def args_pairing_obligations(w):
+    """[(ok, construct, key, why, loc)]: every call of a converter of the parenthesised part of an Args node is followed, on every path to the
+    caller's return, by a call of the converter of the trailing content blocks.  Roles: the trailing-part converter is the function over an Args
+    node that applies skip_while + filter_map(cast ContentBlock) to its children; parenthesised-part converters are the functions over an Args /
+    FuncCall node that cut the children at the closing parenthesis (take_while, directly or through the shared helper) and return a document."""
+    import cfg
+    from mirfacts import callee_path, resolved_id
+    core = w.core
+    fns = [b for b in w.fn_bodies(core) if b.def_kind != 'Closure' and b.short.startswith('pretty::')]
+
+    def own(b):
+        return [b] + [x for x in w.fn_bodies(core) if x.def_kind == 'Closure' and x.id.startswith(b.id + '::{closure')]
+
+    def has_call(b, rx):
+        return any(re.search(rx, callee_path(t) or '') for x in own(b) for _, t in x.calls())
+
+    def node_param(b, names):
+        return any(any(n in b.locals[i]['ty']['s'] for n in names) for i in range(1, b.arg_count + 1))
+    returns_doc = lambda b: b.locals[0]['ty']['s'].startswith('pretty::DocBuilder')
+    cutters = {b.id for b in fns if not returns_doc(b) and has_call(b, r'Iterator>?::take_while$') and has_call(b, r'Iterator>?::skip_while$')}     # get_parenthesized_args_untyped
+    trailing = [b for b in fns if returns_doc(b) and node_param(b, ['ast::Args']) and has_call(b, r'Iterator>?::skip_while$') and not has_call(b, r'Iterator>?::take_while$')]
+    paren = [b for b in fns if returns_doc(b) and node_param(b, ['ast::Args', 'ast::FuncCall']) and b not in trailing and
+             (has_call(b, r'Iterator>?::take_while$') or any(resolved_id(t) in cutters for x in own(b) for _, t in x.calls()))]
+    out = []
+    if len(trailing) != 1 or not paren:
+        out.append((False, {'trailing_part_converters': [last(b.short) for b in trailing], 'parenthesised_part_converters': [last(b.short) for b in paren]},
+                    'args-pairing|anchor', 'the converters of the two parts of an Args node were not found by role', None))
+        return out
+    tid = trailing[0].id
+    pids = {b.id for b in paren}
+    for cb in w.fn_bodies(core):
+        if cb.id in pids or cb.id == tid:
+            continue
+        pcalls = [(bi, t) for bi, t in cb.calls() if resolved_id(t) in pids]
+        if not pcalls:
+            continue
+        tblocks = {bi for bi, t in cb.calls() if resolved_id(t) == tid}
+        # a closure hands its result to the function that created it: the pairing is then the creator's duty only if the creator calls the trailing part
+        for bi, t in pcalls:
+            cons = {'caller': cb.short, 'converts_parenthesised_part_with': last(w.bodies[resolved_id(t)].short)}
+            rets = [x for x, blk in enumerate(cb.blocks) if blk['term']['t'] == 'return']
+            reach = cfg.reachable_avoiding(cb, bi, tblocks) if hasattr(cfg, 'reachable_avoiding') else None
+            if reach is None:
+                # plain forward reachability that does not enter the blocks calling the trailing-part converter
+                seen, work = set(), [bi]
+                while work:
+                    x = work.pop()
+                    if x in seen or (x in tblocks and x != bi):
+                        continue
+                    seen.add(x)
+                    for s_ in cb.succs(x):
+                        if not cb.blocks[s_]['cleanup']:
+                            work.append(s_)
+                reach = seen
+            if any(r_ in reach for r_ in rets):
+                out.append((False, cons, 'args-pairing|%s|%s' % (last(cb.short) if cb.def_kind != 'Closure' else cb.short.split('::')[-2] + '::closure', cons['converts_parenthesised_part_with']),
+                            '%s converts the parenthesised part of an Args node with %s but can return without converting the trailing content blocks of the same node (%s): '
+                            '`f(x)[body]` would lose `[body]`' % (cb.short, cons['converts_parenthesised_part_with'], last(trailing[0].short)), cb.loc(t['span'])))
+            else:
+                out.append((True, cons, 'args-pairing|ok', 'every path to the return also converts the trailing content blocks', cb.loc(t['span'])))
+    return out
